@@ -39,7 +39,10 @@ def run(ctx, rep):
     else:
         njv = [c for c in ri.calls if (c.callee or "").endswith("next_json_value")]
         hdrs = [h for h, blocks in ri.loops().items() if njv and njv[0].bb in blocks]
-        for label, val in (("Ok(Some(value))", OK(some(None))), ("Ok(None)", OK(NONE))):
+        if not njv:
+            r.missing("the next_json_value call of read_input (the read loop is not written as a loop that calls the "
+                      "parser: unrecognised idiom)")
+        for label, val in (() if not njv else (("Ok(Some(value))", OK(some(None))), ("Ok(None)", OK(NONE)))):
             def model(c, av, env, pe, val=val):
                 if c.bb == njv[0].bb:
                     return (True, val)
